@@ -214,6 +214,14 @@ def gen_world(rng):
              "    def m(self, y):\n        z = self.x + y\n        return %s(z) + self.fld\n\n" % (ca, fa))
     if opt(0.6):
         a.append("class %s(%s):\n    def m(self, y):\n        return y\n\n" % (cb, ca))
+    has_mm = False
+    if a[0].startswith("import extmod") and opt(0.6):
+        # a class holding instances of a class of ANOTHER project module (h.H) and of the out-of-project module
+        # (extmod.ExtC): destinations of MoveMethod inside / outside the project
+        a.insert(1, "import h\n")
+        a.append("class M:\n    def __init__(self):\n        self.hh = h.H()\n        self.ext = extmod.ExtC()\n\n"
+                 "    def mm(self, x):\n        return x + 1\n\n")
+        has_mm = True
     if opt(0.3):
         a.append("# %s and %s in a comment\ns = '%s in a string'\n" % (fa, ca, fa))
     b = []
@@ -234,6 +242,8 @@ def gen_world(rng):
     if opt(0.4):
         b.append("\nprint(h(1))\n")
     files = {"proj/a.py": "".join(a), "proj/b.py": "".join(b)}
+    if has_mm:
+        files["proj/h.py"] = "class H:\n    def hm(self):\n        return 0\n"
     if layout == "pkg":
         files["proj/pkg/__init__.py"] = "" if opt() else "from . import c\n"
         c = ["from a import %s\nimport a\n" % fa]
@@ -293,6 +303,17 @@ def open_project(base, world):
 def open_second_project(base):
     from rope.base.project import Project
     return Project(os.path.join(base, "proj2"), ropefolder=None)
+
+
+def external_symlink_swap(base, project, rel):
+    """OUTSIDE rope: the project file proj/<rel> is replaced by a symbolic link to a copy kept in the out-of-project
+    folder (ext/shared_<name>); then rope is told with project.validate()"""
+    src = os.path.join(base, "proj", *rel.split("/"))
+    dst = os.path.join(base, "ext", "shared_" + rel.replace("/", "_"))
+    shutil.copyfile(src, dst)
+    os.remove(src)
+    os.symlink(dst, src)
+    project.validate()
 
 
 def python_files(world):
@@ -766,6 +787,26 @@ def serve(base, world, project, req, perform=True):
     return finish(base, project, changes, r, req, perform)
 
 
+class Stopper:
+    """TaskHandle observer: calls handle.stop() during its `at`-th notification (counted as in C10's model:
+    create_jobset informs once, every started_job / finished_job informs once)"""
+
+    def __init__(self, handle, at):
+        self.handle, self.at, self.n, self.busy = handle, at, 0, False
+
+    def __call__(self):
+        if self.busy:
+            return
+        i = self.n
+        self.n += 1
+        if i == self.at:
+            self.busy = True
+            try:
+                self.handle.stop()
+            finally:
+                self.busy = False
+
+
 def finish(base, project, changes, r, req, perform=True):
     """describe, perform and undo one computed change on its project (r.s0 / r.s1 are already taken)"""
     au = audit()
@@ -786,20 +827,34 @@ def finish(base, project, changes, r, req, perform=True):
         return r
     r.performed = True
     r.do_exc = None
+    r.stop = req.get("stop")
+    r.notifications = None
+    handle = stopper = None
+    if r.stop is not None:
+        from rope.base import taskhandle
+        handle = taskhandle.TaskHandle("C09")
+        stopper = Stopper(handle, r.stop)
+        handle.add_observer(stopper)
     au.start()
     try:
         try:
-            project.do(changes)
+            if handle is not None:
+                project.do(changes, task_handle=handle)
+            else:
+                project.do(changes)
         except Exception as e:          # noqa: BLE001
             r.do_exc = exc_info(e)
             r.do_code = do_class_code(e)
     finally:
         r.do_raw = au.stop()
+    if stopper is not None:
+        r.notifications = stopper.n
     r.s2 = snapshot(base)
     r.undone = False
     r.undo_exc = None
     r.undo_raw = []
     r.s3 = r.s2
+    r.changes_obj = changes
     if r.do_exc is None and not req.get("no_undo") and project.history.undo_list \
             and project.history.undo_list[-1] is changes:
         r.undone = True
